@@ -46,6 +46,9 @@ Repl(d, p, c) == [d EXCEPT ![p] = c]
 \* widens its whitespace or narrows its control range by one character is seen), DEL, C1 controls, NBSP, the line
 \* and paragraph separators, BOM, a 4-byte character and the last scalar value
 ESigma == Sigma \cup (0..31) \cup {127, 128, 133, 160, 8232, 8233, 65279, 65533, 128512, 1114111, 98, 102, 110, 114, 70, 57, 120}
+          \* digits and letters that are such only to Unicode (Arabic-Indic three, superscript two, one half, full-width zero,
+          \* Kelvin sign, long s), and characters whose low byte is a control character, a quote or a backslash
+          \cup {1635, 178, 189, 65296, 8490, 383, 256, 19968, 290, 348}
 Edits(d) == { Del(d, p) : p \in 1..Len(d) }
             \cup { Ins(d, p, c) : p \in 1..(Len(d) + 1), c \in ESigma }
             \cup { Repl(d, p, c) : p \in 1..Len(d), c \in ESigma }
